@@ -1,6 +1,6 @@
 CONSTANTS
   Want = {"C41_ScanLimit", "C41_StageRefusal", "C41_TransRefusal", "C41_StageSubseq", "C41_OmittedAvailable",
-          "C41_RequestedNeeded", "C41_StageLeavesRoot", "C41_TransLimit", "C41_TransWithin", "C41_ReadOnlyRefuses",
+          "C41_RequestedNeeded", "C41_StageLeavesRoot", "C41_TransLimit", "C41_TransWithin", "C41_ReadOnlyRefuses", "C41_ControllerSubsetCheck",
           "C10_StoreContentAddressed", "Conforms"}
   WhatIf = "none"
 SPECIFICATION TSpec
